@@ -162,6 +162,63 @@ theorem get_attribute_single_whole (d : Dev) (self : Nat × Nat) (c i a : Nat) (
     unfold execAttr
     simp [resolve, resolveGo, hname, hself, ho, htag, hbs, List.getLast?]
 
+/-! ### inversion: what a success status implies, with no assumption on the request -/
+
+/-- **Any read answered with status 0 or 6 returned exactly a slice of the addressed tag's stored elements,
+starting at `index + offset / size`, at least one element, inside the requested range; status 0 iff the
+slice reaches the end of the requested range.**  (every tag, scalar or array; every path/count/offset) -/
+theorem read_ok_inv (d : Dev) (self : Nat × Nat) (svc : Nat) (isFrag : Bool) (p : Path) (n off : Nat)
+    (h : (execTag d self svc true isFrag p 0 n off []).2.status = 0
+       ∨ (execTag d self svc true isFrag p 0 n off []).2.status = 6) :
+    ∃ c i a tag beg k, resolveTag d self p = some (c, i, a, tag)
+      ∧ beg = resolveElement p + (if isFrag then off else 0) / tag.ty.size
+      ∧ 1 ≤ k ∧ beg + k ≤ resolveElement p + n ∧ resolveElement p + n ≤ tag.len
+      ∧ (execTag d self svc true isFrag p 0 n off []).2.ty = some tag.ty
+      ∧ (execTag d self svc true isFrag p 0 n off []).2.vals = (tag.vals.drop beg).take k
+      ∧ ((execTag d self svc true isFrag p 0 n off []).2.status = 0 ↔ beg + k = resolveElement p + n) := by
+  unfold execTag at h ⊢
+  cases hr : resolveTag d self p with
+  | none => rw [hr] at h; simp [errReply] at h
+  | some r =>
+    obtain ⟨c, i, a, tag⟩ := r
+    rw [hr] at h
+    simp only [↓reduceIte] at h ⊢
+    cases hacc : tagAccess tag d.maxBytes true (resolveElement p) n (if isFrag then off else 0) [] with
+    | refused => rw [hacc] at h; simp [errReply] at h
+    | wrote t' => exact absurd hacc (tagAccess_read_ne_wrote _ _ _ _ _ _ _)
+    | read st vals =>
+      obtain ⟨beg, k, h1, h2, h3, h4, h5, _, h7⟩ := tagAccess_read_inv _ _ _ _ _ _ _ _ hacc
+      exact ⟨c, i, a, tag, beg, k, rfl, h1, h2, h3, h4, rfl, h5, h7⟩
+
+/-- **Any write acknowledged with status 0 stored exactly the request's values, converted to the tag's type,
+at elements `[beg, beg + |w|)` of the addressed tag — inside the tag and inside the declared range — and
+changed nothing else.**  (every tag, scalar or array) -/
+theorem write_ok_inv (d : Dev) (self : Nat × Nat) (svc : Nat) (isFrag : Bool) (p : Path) (reqTy n off : Nat)
+    (data : Bytes) (h : (execTag d self svc false isFrag p reqTy n off data).2.status = 0) :
+    ∃ c i a tag w beg, resolveTag d self p = some (c, i, a, tag) ∧ convWrite tag reqTy data = some w
+      ∧ beg = resolveElement p + (if isFrag then off else 0) / tag.ty.size
+      ∧ 1 ≤ w.length ∧ beg + w.length ≤ resolveElement p + n ∧ resolveElement p + n ≤ tag.len
+      ∧ (execTag d self svc false isFrag p reqTy n off data).1
+          = d.setAttr c i a { tag with vals := if tag.scalar then w.take 1 else spliceAt tag.vals beg w } := by
+  unfold execTag at h ⊢
+  cases hr : resolveTag d self p with
+  | none => rw [hr] at h; simp [errReply] at h
+  | some r =>
+    obtain ⟨c, i, a, tag⟩ := r
+    rw [hr] at h
+    simp only [Bool.false_eq_true, ↓reduceIte] at h ⊢
+    cases hw : convWrite tag reqTy data with
+    | none => rw [hw] at h; simp [errReply] at h
+    | some w =>
+      rw [hw] at h
+      simp only at h ⊢
+      cases hacc : tagAccess tag d.maxBytes false (resolveElement p) n (if isFrag then off else 0) w with
+      | refused => rw [hacc] at h; simp [errReply] at h
+      | read st vals => exact absurd hacc (tagAccess_write_ne_read _ _ _ _ _ _ _ _)
+      | wrote t' =>
+        obtain ⟨beg, h1, h2, h3, h4, h5⟩ := tagAccess_wrote_inv _ _ _ _ _ _ _ hacc
+        exact ⟨c, i, a, tag, w, beg, rfl, hw, h1, h2, h3, h4, by rw [h5]⟩
+
 /-! ### histories: the arrays have a fixed type and length forever -/
 
 /-- the shape of a tag: element type, scalar flag, number of elements -/
